@@ -6,8 +6,12 @@ BLOCK, DO with a referenced construct name — containing dense statement lists 
 constructs and control transfers in every position, nested two deep; the abstraction opens the fparser2
 parse tree of every CodeBlock) x every consecutive-statement range of every Schedule x {ProfileTrans, ExtractTrans,
 NanTestTrans, ReadOnlyVerifyTrans} (plus second applications on already instrumented trees):
-real validate/apply/lower_to_language_level vs. the Lean model (accept/refuse, tree after apply,
-lowered code, region names); `get_unique_region_name` vs. `C28.uniqueNames` on GOcean invokes.
+real validate/apply/lower_to_language_level vs. the Lean model (accept/refuse, tree after apply incl. the
+PSyData variable chosen by next_available_name, lowered code, region names).  Also: OpenMP/OpenACC
+directives built around statements (directive-dependent refusals), the options node-type-check / prefix /
+region_name, clashes with the PSyData symbol names; `get_unique_region_name` vs. `C28.uniqueNames` on
+GOcean invokes; the PSyKAl `gen_code` names of LFRic modules with several invokes (incl. LFRicExtractTrans,
+which takes its names from the table) vs. `C28.genCodeNames`.
 
 Property on the real code (every case): the REAL lowered tree is abstracted into `C28.Stmt` and the
 driver explores all oracles (branch choices / trip counts 0..B for the first D queries) — every trace
@@ -58,10 +62,27 @@ def real_apply(routine, step):
     """applies one step (trans, path, i, j, name) to the real tree.
     returns "ok" | "refused" | "error:<class>" and the message"""
     from psyclone.psyir.transformations import TransformationError
-    tname, path, i, j, name = step
+    if step[0] == "dir":
+        # a directive built directly around children[i:j] (not a PSyData step)
+        _, num, path, i, j = step
+        sched = G.navigate(routine, [tuple(p) for p in path])
+        nodes = sched.children[i:j]
+        for n in nodes:
+            n.detach()
+        sched.addchild(G.make_dir(num, nodes), i)
+        return "ok", ""
+    tname, path, i, j, name = step[:5]
+    opt = step[5] if len(step) > 5 else None
     sched = G.navigate(routine, [tuple(p) for p in path])
     nodes = sched.children[i:j]
-    options = {"region_name": tuple(name)} if name else None
+    options = {"region_name": tuple(name)} if name else {}
+    if opt == "notypecheck":
+        options["node-type-check"] = False
+    elif opt == "badprefix":
+        options["prefix"] = "bogus"
+    elif opt == "badname":
+        options["region_name"] = ("only-one",) if i % 2 else ("", "empty-module")
+    options = options or None
     try:
         with contextlib.redirect_stdout(io.StringIO()), contextlib.redirect_stderr(io.StringIO()):
             trans_of(tname).apply(nodes, options)
@@ -128,7 +149,8 @@ def prepare(case, ids_by_case, tier):
         if verdict != "ok":
             raise common.Infra(f"C28: history step {st} no longer accepted ({verdict}: {msg}) in {case.origin}")
     step = case.steps[-1]
-    tname, path, i, j, name = step
+    tname, path, i, j, name = step[:5]
+    opt = step[5] if len(step) > 5 else None
     path = [tuple(p) for p in path]
     sched = G.navigate(routine, path)
     frames = G.frames_of(routine, path, ids)
@@ -146,23 +168,26 @@ def prepare(case, ids_by_case, tier):
         new = new_region(routine, before)
         if len(new) != 1:
             case.real["verdict"] = "error:no-single-new-node"
-            v = 99
         else:
             case.real["fresh_var"] = new[0].var_name.lower() not in before_vars
-            v = ids.var(new[0].var_name.lower())
-    else:
-        v = 90 + len(ids.vars)
-    nm = [ids.name(name[0]), ids.name(name[1])] if name else "-"
-    lines.append(("apply", sx(["apply", frames, pre, mid, post, v, kind, nm])))
+    nm = [ids.name(name[0]), ids.name(name[1])] if name and opt != "badname" else "-"
+    opts = [0 if opt == "notypecheck" else 1, 0 if opt == "badprefix" else 1, 0 if opt == "badname" else 1]
+    clash = 1 if G.clash_of(case.src, kind) else 0
+    lines.append(("apply", sx(["apply", frames, pre, mid, post, kind, nm, opts, clash])))
     if case.real["verdict"] == "ok":
         case.real["after"] = sx(G.abs_sched(routine, ids))
         case.real["auto_flags"] = [n.region_name is None for n in routine.walk(PSyDataNode)]
         names = []
-        low, text = lowered(psyir, routine.name, False)
+        case.real["routine_id"] = ids.name(routine.name)
+        try:
+            low, text = lowered(psyir, routine.name, False)
+        except Exception as err:  # pylint: disable=broad-except
+            # e.g. a directive that cannot be lowered where the generator put it: nothing to run
+            case.real["lowering_error"] = type(err).__name__ + ": " + str(err)[:120]
+            return lines
         case.real["lowered"] = sx(G.abs_sched(low, ids, names))
         case.real["names"] = names
         case.real["fortran"] = text
-        case.real["routine_id"] = ids.name(routine.name)
         lines.append(("lower", sx(["lower", case.real["routine_id"], G.abs_sched(routine, ids)])))
         lines.append(("explore", "(explore %s %d %d)" % (case.real["lowered"], B_TRIPS, depth_bound(tier))))
     return lines
@@ -187,10 +212,16 @@ def judge(chk, case, out, ids, gf, stats):
         stats["refused_only_by_fixed_rule"] = stats.get("refused_only_by_fixed_rule", 0) + 1
     agreed = (rv == "ok") == (model_verdict == "ok") and not rv.startswith("error")
     why = None
+    opted_out = any(len(st) > 5 and st[5] == "notypecheck" for st in case.steps)
+    if rv == "ok" and "lowered" not in real:
+        stats["lowering_errors"] = stats.get("lowering_errors", 0) + 1
+        stats.setdefault("lowering_error_samples", [])
+        if len(stats["lowering_error_samples"]) < 3:
+            stats["lowering_error_samples"].append(real.get("lowering_error"))
     if rv == "ok":
         if agreed and sx(model_after) != real["after"]:
-            agreed, why = False, "tree after apply differs"
-        if agreed:
+            agreed, why = False, "tree after apply differs (statements, placement or PSyData variable)"
+        if agreed and "lowered" in real:
             ml = parse_sx(out["lower"])
             if sx(ml[0]) != real["lowered"]:
                 agreed, why = False, "lowered code differs (placement of PreStart/PostEnd)"
@@ -205,7 +236,9 @@ def judge(chk, case, out, ids, gf, stats):
              nontrivial=nontrivial, agreed=agreed)
     # ---- the property itself, on the real instrumented code
     viol = None
-    if rv == "ok":
+    if opted_out:
+        stats["opted_out_of_node_type_check"] = stats.get("opted_out_of_node_type_check", 0) + 1
+    if rv == "ok" and "lowered" in real and not opted_out:
         ex = parse_sx(out["explore"])
         stats["oracle_runs"] = stats.get("oracle_runs", 0) + (ex[1] if ex[0] == "ok" else 0)
         if ex[0] == "bad":
@@ -260,36 +293,77 @@ def cases_of_program(chk, src, origin, budget2):
     sampled second placements"""
     rng = chk.rng
     _, routine = parse_source(src)
+    # directives built around some statements first (they are part of the program, not PSyData steps)
+    dirs = []
+    if rng.random() < 0.4:
+        for _ in range(rng.randint(1, 2)):
+            st = random_dir_step(rng, routine)
+            if st is None:
+                break
+            real_apply(routine, st)
+            dirs.append(st)
+
+    def opt():
+        x = rng.random()
+        return "notypecheck" if x < 0.04 else "badprefix" if x < 0.06 else "badname" if x < 0.08 else None
+
     first = []
     for path, i, j in placements(routine):
         for t in (G.TRANS if chk.tier == "thorough" else ["ProfileTrans", rng.choice(G.TRANS[1:])]):
             name = None
             if rng.random() < 0.08:
                 name = rng.choice([["mymod", "myreg"], ["mymod", "other"], ["work", "r0"]])
-            first.append([t, path, i, j, name])
+            first.append([t, path, i, j, name, opt()])
     cap = 300 if chk.tier == "thorough" else 130
     if len(first) > cap:
         rng.shuffle(first)
         del first[cap:]
-    out = [Case(src, [st], origin) for st in first]
+    out = [Case(src, dirs + [st], origin) for st in first]
     # level 2
     tried = 0
     rng.shuffle(first)
     for st in first:
         if budget2 <= 0 or tried >= 3:
             break
+        if st[5] is not None:
+            continue
         _, r2 = parse_source(src)
+        for d in dirs:
+            real_apply(r2, d)
         if real_apply(r2, st)[0] != "ok":
             continue
         tried += 1
-        second = [[t, path, i, j, (["mymod", "myreg"] if rng.random() < 0.1 else None)]
+        second = [[t, path, i, j, (["mymod", "myreg"] if rng.random() < 0.1 else None), opt()]
                   for path, i, j in placements(r2) for t in G.TRANS]
         rng.shuffle(second)
         for st2 in second[:budget2]:
-            out.append(Case(src, [st, st2], origin))
+            out.append(Case(src, dirs + [st, st2], origin))
     # an empty node list
-    out.append(Case(src, [[rng.choice(G.TRANS), [], 0, 0, None]], origin))
+    out.append(Case(src, dirs + [[rng.choice(G.TRANS), [], 0, 0, None, None]], origin))
     return out
+
+
+def random_dir_step(rng, routine):
+    """a directive around a random place: loop directives around one Loop, region directives around a range;
+    `omp do` only inside an `omp parallel`, `acc loop` only inside an `acc parallel` (lowering checks that)"""
+    from psyclone.psyir.nodes import Loop, OMPParallelDirective, ACCParallelDirective, RegionDirective
+    cands = []
+    for path, sched in G.schedules(routine):
+        n = len(sched.children)
+        in_dir = sched.ancestor(RegionDirective) is not None
+        for i in range(n):
+            node = sched.children[i]
+            if isinstance(node, Loop):
+                if not in_dir:
+                    cands.append(["dir", 2, [list(p) for p in path], i, i + 1])
+                if sched.ancestor(OMPParallelDirective) is not None and not isinstance(sched.parent, RegionDirective):
+                    cands += [["dir", 1, [list(p) for p in path], i, i + 1]] * 3
+                if sched.ancestor(ACCParallelDirective) is not None and not isinstance(sched.parent, RegionDirective):
+                    cands += [["dir", 4, [list(p) for p in path], i, i + 1]] * 3
+            if not in_dir:
+                j = rng.randint(i + 1, n)
+                cands.append(["dir", rng.choice([0, 0, 0, 3, 5]), [list(p) for p in path], i, j])
+    return rng.choice(cands) if cands else None
 
 
 def corpus_cases():
@@ -429,6 +503,148 @@ def multi_check(chk, stats):
     return None
 
 
+# ---------------------------------------------------------------------------------- gen_code names
+def gencode_check(chk, stats):
+    """PSyKAl code generation (`PSyDataNode.gen_code`, LFRic): region names of all PSyData nodes of a PSy-layer
+    module with several invokes vs `C28.genCodeNames` (+ `C28.uniqueNames` for the names that
+    `LFRicExtractTrans` obtains from `get_unique_region_name` after its validate has passed — a refused
+    apply does not touch the table); uniqueness evaluated directly."""
+    import re
+    from psyclone.configuration import Config
+    from psyclone.psyir.transformations import PSyDataTrans
+    from psyclone.psyir.nodes import PSyDataNode
+    from psyclone.psyGen import Kern
+    old_api = Config.get().api
+    saved = PSyDataTrans._used_kernel_names
+    files = ["3.1_multi_functions_multi_invokes.f90", "4.5_multikernel_invokes.f90", "1.2_multi_invoke.f90",
+             "4_multikernel_invokes.f90"]
+    rng = chk.rng
+    try:
+        from psyclone.tests.utilities import get_invoke
+        from psyclone.domain.lfric.transformations import LFRicExtractTrans
+        done = 0
+        for _ in range(8 if chk.tier == "quick" else 40):
+            try:
+                psy, _ = get_invoke(rng.choice(files), "lfric", idx=0, dist_mem=False)
+            except Exception:  # pylint: disable=broad-except
+                continue
+            PSyDataTrans._used_kernel_names = {}
+            ids = G.Ids()
+            reqs = []          # requests to get_unique_region_name, in call order
+            extract_nodes = []
+            for inv in psy.invokes.invoke_list:
+                for _ in range(rng.randint(0, 3)):
+                    scheds = [sc for _, sc in G.schedules(inv.schedule) if sc is inv.schedule or
+                              isinstance(sc.parent, PSyDataNode)]
+                    sched = rng.choice(scheds)
+                    n = len(sched.children)
+                    if not n:
+                        continue
+                    i = rng.randrange(n)
+                    j = rng.randint(i + 1, n)
+                    nodes = sched.children[i:j]
+                    x = rng.random()
+                    before = {id(q) for q in inv.schedule.walk(PSyDataNode)}
+                    try:
+                        if x < 0.2:
+                            nm = rng.choice([("um", "ur"), ("um", "us")])
+                            trans_of("ProfileTrans").apply(nodes, {"region_name": nm})
+                        elif x < 0.45:
+                            kerns = [k for q in nodes for k in q.walk(Kern)]
+                            base = inv.name + (f":{kerns[0].name}" if len(kerns) == 1 else "")
+                            # apply validates first (7cab1a8): a refused apply leaves the table untouched,
+                            # the name is requested once validate has passed
+                            with contextlib.redirect_stdout(io.StringIO()), contextlib.redirect_stderr(io.StringIO()):
+                                LFRicExtractTrans().validate(nodes, {})
+                                reqs.append(["a", ids.name(psy.name), ids.name(base)])
+                                LFRicExtractTrans().apply(nodes)
+                            new = [q for q in inv.schedule.walk(PSyDataNode) if id(q) not in before]
+                            extract_nodes += [(q, len(reqs) - 1) for q in new]
+                        else:
+                            trans_of(rng.choice(["ProfileTrans", "NanTestTrans", "ReadOnlyVerifyTrans"])).apply(nodes)
+                    except Exception:  # pylint: disable=broad-except
+                        continue       # refused placements are not the subject here
+            try:
+                with contextlib.redirect_stdout(io.StringIO()), contextlib.redirect_stderr(io.StringIO()):
+                    code = str(psy.gen)
+            except Exception as err:  # pylint: disable=broad-except
+                stats["gencode_generation_errors"] = stats.get("gencode_generation_errors", 0) + 1
+                stats["gencode_error_sample"] = type(err).__name__ + ": " + str(err)[:100]
+                continue
+            got = [tuple(re.findall(r'"([^"]*)"', a)[:2]) for a in re.findall(r"PreStart\(([^)]*)\)", code)]
+            # model: names from the table for the extract nodes, then the gen_code numbering
+            inv_names = lambda: {v: k for k, v in ids.names.items()}
+            table = parse_sx(driver("C28", [sx(["names", reqs])])[0]) if reqs else []
+            tnames = [(inv_names()[g[1]], f"{inv_names()[g[2]]}:r{g[3]}") for g in table]
+            by_node = {id(q): tnames[k] for q, k in extract_nodes}
+            nodes_desc, flags = [], []
+            root = psy.invokes.invoke_list[0].schedule.root
+            for q in root.walk(PSyDataNode):
+                inv = q.ancestor(type(psy.invokes.invoke_list[0].schedule)).invoke
+                kerns = q.walk(Kern)
+                base = inv.name + (f":{kerns[0].name}" if len(kerns) == 1 else "")
+                if id(q) in by_node:
+                    user = by_node[id(q)]
+                elif q.region_name is not None:
+                    user = (q.module_name, q.region_name)
+                else:
+                    user = None
+                nodes_desc.append([[ids.name(user[0]), ids.name(user[1])] if user else "-", ids.name(base)])
+                flags.append(user is None or id(q) in by_node)
+            mo = parse_sx(driver("C28", [sx(["gencode", ids.name(psy.name), nodes_desc])])[0])
+            names = inv_names()
+            exp = [(names[g[1]], names[g[2]]) if g[0] == "u" else (names[g[1]], f"{names[g[2]]}:r{g[3]}") for g in mo]
+            agreed = exp == got
+            chk.case({"gencode": psy.name, "got": got}, nontrivial=len(got) > 1, agreed=agreed)
+            done += 1
+            if len(flags) == len(got):
+                qs = root.walk(PSyDataNode)
+                table_named = [g for g, q, f in zip(got, qs, flags) if f and id(q) in by_node]
+                position_named = [g for g, q, f in zip(got, qs, flags) if f and id(q) not in by_node]
+            else:
+                table_named, position_named = got, []
+            if len(set(table_named)) != len(table_named) or len(set(position_named)) != len(position_named):
+                return {"kind": "failing-input", "gencode": psy.name, "observed": got,
+                        "expected": "generated region names of a PSy-layer module pairwise distinct"}
+            if set(table_named) & set(position_named):
+                # known finding C28-mixed-naming-schemes
+                stats["known_class_mixed_naming_schemes"] = stats.get("known_class_mixed_naming_schemes", 0) + 1
+            if not agreed:
+                chk.correspondence_broken("gen_code region names differ from C28.genCodeNames", psy.name, exp, got)
+        stats["gencode_modules"] = done
+    finally:
+        PSyDataTrans._used_kernel_names = saved
+        Config.get()._api = old_api
+    return None
+
+
+def gencode_witness(w, quiet=True):
+    """known finding C28-mixed-naming-schemes: [(trans, invoke index, i, j)] on an LFRic test file;
+    True iff two generated names coincide"""
+    import re
+    from psyclone.configuration import Config
+    from psyclone.psyir.transformations import PSyDataTrans
+    from psyclone.tests.utilities import get_invoke
+    from psyclone.domain.lfric.transformations import LFRicExtractTrans
+    old_api, saved = Config.get().api, PSyDataTrans._used_kernel_names
+    try:
+        PSyDataTrans._used_kernel_names = {}
+        psy, _ = get_invoke(w["file"], "lfric", idx=0, dist_mem=False)
+        with contextlib.redirect_stdout(io.StringIO()), contextlib.redirect_stderr(io.StringIO()):
+            for tname, k, i, j in w["steps"]:
+                nodes = psy.invokes.invoke_list[k].schedule.children[i:j]
+                (LFRicExtractTrans() if tname == "LFRicExtractTrans" else trans_of(tname)).apply(nodes)
+            code = str(psy.gen)
+        got = [tuple(re.findall(r'"([^"]*)"', a)[:2]) for a in re.findall(r"PreStart\(([^)]*)\)", code)]
+        if not quiet:
+            print("file:", w["file"], "steps:", w["steps"], "\nobserved region names:", got,
+                  "\nexpected: pairwise distinct")
+        return len(set(got)) != len(got)
+    finally:
+        PSyDataTrans._used_kernel_names = saved
+        Config.get()._api = old_api
+
+
 # ---------------------------------------------------------------------------------- run
 def run(chk):
     chk.cov["rule"] = (
@@ -442,10 +658,14 @@ def run(chk):
         "only terminating executions; GOTOs are forward jumps to a labelled CONTINUE in the same or an enclosing "
         "statement list (no jump into a block); STOP/ERROR STOP, alternate returns and I/O ERR=/END= branches are "
         "outside the model",
-        "PSyData variables of distinct nodes are distinct (symbol table, checked on every case)",
-        "options['node-type-check'] is left at its default",
-        "EXIT/CYCLE with a construct name always name the innermost enclosing DO (the model has single-level "
-        "EXIT/CYCLE); SELECT TYPE, WHERE/FORALL constructs inside CodeBlocks are not generated",
+        "the routine has no user symbol called <prefix>_psy_data[_n] (the PSyData variable names are then exactly "
+        "those of C28.nextVar; compared on every accepted case)",
+        "options['node-type-check']=False is an explicit opt-out: such cases are compared with the model but not "
+        "counted as violations (C28.node_type_check_off_counterexample)",
+        "construct names of EXIT/CYCLE refer to DO constructs of the same CodeBlock (PSyclone keeps a DO whose name "
+        "is referenced as one CodeBlock); SELECT TYPE, WHERE/FORALL constructs inside CodeBlocks are not generated",
+        "directives are built directly (OMPParallel/OMPDo/OMPParallelDo/ACCParallel/ACCLoop/ACCKernels), not through "
+        "their transformations; when such a tree cannot be lowered only validate/apply are compared",
         "model is in FIXED mode: fixes/C28-exit-in-region.patch + fixes/C28-return-in-codeblock.patch"]
     chk.cov["trusted_base"] = [
         "Lean 4.33.0 kernel", "axioms propext/Classical.choice/Quot.sound only (audited)",
@@ -513,6 +733,9 @@ def _run(chk, stats, gf):
     v = names_check(chk, stats)
     if v is not None:
         chk.violation(v)
+    v = gencode_check(chk, stats)
+    if v is not None:
+        chk.violation(v)
     for e in common.known_findings("C28"):
         if replay_witness(e["witness"], quiet=True):
             chk.known(e["what"])
@@ -529,6 +752,11 @@ def replay_witness(payload, quiet=False):
         say("observed region names per routine:", per)
         say("expected: pairwise distinct generated names; duplicates:", known + other)
         return bool(known or other)
+    if "gencode_witness" in payload:
+        return gencode_witness(payload["gencode_witness"], quiet)
+    if "gencode" in payload:
+        say("gen_code names witness: re-run `./check C28` (sequence-dependent)")
+        return False
     if "names_requests" in payload:
         say("names-table witness: re-run `./check C28` (sequence-dependent)")
         return False
@@ -585,7 +813,7 @@ def replay(payload):
             out = {k: o for (k, _), o in zip(lines, outs)}
             mv = parse_sx(out["apply"])
             print("steps:", c.steps, "\nreal:", c.real["verdict"], c.real["message"], "\nmodel:", mv[0])
-            same = (c.real["verdict"] == "ok") == (mv[0] == "ok")
+            same = (c.real["verdict"] == "ok") == (mv[0] == "ok") and not c.real["verdict"].startswith("error")
             if same and c.real["verdict"] == "ok":
                 ml = parse_sx(out["lower"])
                 same = sx(mv[2]) == c.real["after"] and sx(ml[0]) == c.real["lowered"] and \
